@@ -131,21 +131,22 @@ def iterLoop (yieldHooks : Bool) (pre : List PathEl) : Nat → List Frame → Li
       else iterLoop yieldHooks pre fuel rest
 
 mutual
-/-- number of nodes of a subtree -/
-def nodesN : Node → Nat
-  | .mk _ _ _ _ _ lits tok => 1 + nodesL lits + nodesT tok
-def nodesT : Option Node → Nat
+/-- rounds of the loop a subtree costs once its root frame is on the stack: one round per child
+to push it, one round per node to pop it -/
+def roundsN : Node → Nat
+  | .mk _ _ _ _ _ lits tok => roundsL lits + roundsT tok + 1
+def roundsT : Option Node → Nat
   | none => 0
-  | some t => nodesN t
-def nodesL : List Node → Nat
+  | some t => roundsN t + 1
+def roundsL : List Node → Nat
   | [] => 0
-  | k :: ks => nodesN k + nodesL ks
+  | k :: ks => roundsN k + 1 + roundsL ks
 end
 
-/-- `_routes_iter(pnode)` once the start node is fixed: every node is pushed once and popped
-once, so `2 * nodes` rounds end the loop -/
+/-- `_routes_iter(pnode)` once the start node is fixed: the loop runs until the stack is empty,
+which takes `roundsN` rounds (`iterLoop_rounds` in `Lemmas/RouterListing.lean`) -/
 def iterFrom (yieldHooks : Bool) (pre : List PathEl) (start : PathEl) : List (List PathEl) :=
-  iterLoop yieldHooks pre (2 * nodesN start.2) [(start.1, start.2, 0)]
+  iterLoop yieldHooks pre (roundsN start.2) [(start.1, start.2, 0)]
 
 /-- `key.startswith(rest)` on a literal key, `rest` = what is left of the `startswith` pattern -/
 def keyStartsWith (key : Str) (rest : List Sym) : Bool := (patStr rest).isPrefixOf key
